@@ -520,6 +520,61 @@ class C12(Check):
             v = min(v, 2 ** 64 - 1)
             txt = str(v) if r.random() < 0.6 else ("0x%x" % v if r.random() < 0.5 else "0X%X" % v)
             T.append(("rint", "a = %s;\nprint a;\nb = a + 1;\n" % txt, None))
+        # (4b) thinly covered forms (round C12-deepen 2): members, items, set@, trace, forall, typed declarations, deep parentheses
+        def ie(depth=0):
+            k = r.random()
+            if depth > 2 or k < 0.25:
+                return r.choice(["x", str(r.randint(0, 99)), "t.count()", "u@1", "strlen(s)", "s.count()", "r.at(0)", "t.at(0)", "u@3"])
+            if k < 0.45:
+                return "%s %s %s" % (ie(depth + 1), r.choice(["+", "-", "*"]), ie(depth + 1))
+            if k < 0.6:
+                return "(%s %s %s)" % (ie(depth + 1), r.choice(["+", "-", "*"]), ie(depth + 1))
+            if k < 0.7:
+                return "max(%s, %s)" % (ie(depth + 1), ie(depth + 1))
+            if k < 0.8:
+                return "-%s" % r.choice(["x", "(%s)" % ie(depth + 1), "t.at(1)", "u@1"])
+            if k < 0.9:
+                return "tup(%s, %s)@%d" % (ie(depth + 1), ie(depth + 1), r.randint(1, 2))
+            return "tab(2, %s).at(%d)" % (ie(depth + 1), r.randint(0, 1))
+
+        def be():
+            return r.choice(["true", "false", "%s < %s" % (ie(1), ie(1)), "not (%s == %s)" % (ie(1), ie(1)), "isnull(s)", "%s >= %s and true" % (ie(1), ie(1))])
+
+        def fe():   # a boolean that is FALSE when run (trace true would switch on time-stamped tracing)
+            return r.choice(["false", "not true", "(1 > 2)", "isnull(s)", "1 == 2 and %s < %s" % (ie(1), ie(1)), "false or (%s < %s and false)" % (ie(1), ie(1))])
+        TYPES = ["integer", "decimal", "string", "boolean", "bytes", "table", "tuple", "complex", "undefined"]
+        for i in range(420 if quick else 3000):
+            L = ['x = %d;' % r.randint(0, 50), 't = tab(3, %d);' % r.randint(0, 9), 'u = tup(%d, "s", %d);' % (r.randint(0, 9), r.randint(0, 9)),
+                 's = "abc";', 'r = raw(3, 65);']
+            for _ in range(r.randint(2, 5)):
+                k = r.randint(0, 11)
+                if k == 0:
+                    L.append("trace %s;" % fe())
+                elif k == 1:
+                    L.append("forall e in t%s loop\n x = x + e;\n print e %s;\nend loop;" % (r.choice(["", " asc", " desc"]), ie(1)))
+                elif k == 2:
+                    L.append("n%d : %s;" % (len(L), r.choice(TYPES)))
+                elif k == 3:
+                    L.append("x = %s , m%d:%s , y = %s;" % (ie(), len(L), r.choice(TYPES), ie()))
+                elif k == 4:
+                    L.append("t.%s;" % r.choice(["put(%d, %s)" % (r.randint(0, 2), ie()), "insert(%d, %s)" % (r.randint(0, 2), ie()), "concat(%s)" % ie()]))
+                elif k == 5:
+                    L.append("u.set@%d(%s);" % (r.choice([1, 3]), ie()))
+                elif k == 6:
+                    L.append("print u.set@1(%s)@1 t.concat(%s).count() s.concat(\"z\").at(%d);" % (ie(), ie(), r.randint(0, 2)))
+                elif k == 7:
+                    L.append("put %s \"-\" %s;" % (ie(), ie()))
+                elif k == 8:
+                    L.append("x = %s%s%s;" % ("(" * r.randint(1, 14), ie(2), ""))
+                    d = L[-1].count("(") - L[-1].count(")")
+                    L[-1] = L[-1][:-1] + ")" * d + ";"
+                elif k == 9:
+                    L.append("if %s then\n trace %s;\nelsif %s then\n x = %s;\nelse\n forall e in t loop nop; end loop;\nend if;" % (be(), fe(), be(), ie()))
+                elif k == 10:
+                    L.append("do %s;" % r.choice(["t.delete(0)", "r.put(%d, 66)" % r.randint(0, 2), "s.insert(%d, \"!\")" % r.randint(0, 2), "u@%d" % r.randint(1, 3)]))
+                else:
+                    L.append("print %s %s;" % (ie(), r.choice(["t.at(%d)" % r.randint(0, 1), "u@2", "r.count()", "str(%s)" % ie()])))
+            T.append(("forms", "\n".join(L) + "\n", None))
         # (4) random typed programs
         nprog = 260 if quick else 3000
         for i in range(nprog):
@@ -638,7 +693,7 @@ class C12(Check):
         for fm in M.get("forms", "-").split(","):
             if fm != "-":
                 fd[fm] = fd.get(fm, 0) + 1
-        for k in ("ptoks", "prt", "flat", "isep", "pfix"):
+        for k in ("ptoks", "prt", "flat", "wfp", "pfuel", "isep", "pfix"):
             if M.get(k) == "1":
                 self.count("model_" + k)
         if M.get("pfix") != "1":
@@ -647,6 +702,14 @@ class C12(Check):
             return self.viol("model: the saved bytes of a well-formed program do not scan to toksProgram (byte->token step of the statement theorems)", c, "-", M)
         if M.get("wf") == "1" and M.get("isep") != "1":
             return self.viol("model: a print list outside every finding region violates the explicit side condition itemsSep", c, "-", M)
+        if M.get("wfp") == "1" and M.get("prt") != "1":
+            return self.viol("model: parse (toksProgram p) is not normP p INSIDE the domain of C12.program_roundtrip (wfP)", c, "-", M)
+        if M.get("pfuel") != "1":
+            return self.viol("model: parseText's fuel does not cover the bound of C12.program_roundtrip (hypothesis hfuel of program_roundtrip_bytes)", c, "-", M)
+        if M.get("wfp") == "1" and M.get("ptoks") == "1" and not (M.get("re") == "ok" and M.get("tree") in ("same", "norm")):
+            return self.viol("model: INSIDE the domain of C12.program_roundtrip_bytes (wfP, hscan, hfuel) the byte-level round trip fails", c, "-", M)
+        if M.get("wf") == "1" and M.get("wfp") != "1":
+            self.count("wf_but_not_wfP")
         if M.get("wf") == "1" and M.get("prt") != "1":
             return self.viol("model: parse (toksProgram p) is not normP p for a well-formed program (statement of C12.program_roundtrip_partial%s)" % (
                 ", INSIDE its proved domain" if M.get("flat") == "1" else ""), c, "-", M)
